@@ -21,6 +21,8 @@ structure HSt (V : Type) where
   stores : Nat → Nat → Slot V
   /-- events passed to `observer.on_next` / `observer.on_error` so far, oldest first -/
   out : List (Ev V)
+  /-- events passed to `outer_observer.on_next` (the path around the inner pipeline of a splitter) so far -/
+  outer : List (Ev V) := []
 
 abbrev HM (V : Type) := ExceptT Err (StateM (HSt V))
 
@@ -53,6 +55,10 @@ def delKey (sid : Nat) (k : Key) : HM V Unit :=
 def emit (e : Ev V) : HM V Unit :=
   modify fun s => { s with out := s.out ++ [e] }
 
+/-- `outer_observer.on_next(event)` -/
+def emitOuter (e : Ev V) : HM V Unit :=
+  modify fun s => { s with outer := s.outer ++ [e] }
+
 /-- a value read with `get_state` used as an ordinary value (the NOTSET marker object is not a value of the model) -/
 def unmark (m : Option V) : HM V V :=
   match m with
@@ -61,8 +67,14 @@ def unmark (m : Option V) : HM V V :=
 
 /-- run a handler on a store, from an empty output list: the exception that escaped (if any), the store, the emitted events -/
 def runH (m : HM V Unit) (stores : Nat → Nat → Slot V) : Except Err Unit × (Nat → Nat → Slot V) × List (Ev V) :=
-  let r := (ExceptT.run m).run ⟨stores, []⟩
+  let r := (ExceptT.run m).run ⟨stores, [], []⟩
   (r.1, r.2.stores, r.2.out)
+
+/-- the same for a splitter: additionally the events sent around the inner pipeline -/
+def runH2 (m : HM V Unit) (stores : Nat → Nat → Slot V) :
+    Except Err Unit × (Nat → Nat → Slot V) × List (Ev V) × List (Ev V) :=
+  let r := (ExceptT.run m).run ⟨stores, [], []⟩
+  (r.1, r.2.stores, r.2.out, r.2.outer)
 
 end HM
 end Rx
